@@ -80,5 +80,17 @@ func checks() map[string]CheckDef {
 		Outside: []string{"the 2000-header cap is decided by the range lemma on abstract heights, not end to end (a store of 2001 rows is outside the row bound)", "wire encoding of the answer (C14)", "PostgreSQL"},
 		Stubs:   []string{"HarnessLocator/HarnessRange replace repository.Headers by an abstract chain whose contract (one longest-chain header per height; start/stop heights) is what HarnessGetHeaders, C01 and C04 decide on symbolic stores"},
 	})
+	add(CheckDef{
+		ID: "C03", Level: "model_checking",
+		Runs: []HRun{
+			{Pkg: "internal/zzverif/c03", Func: "HarnessHash", Labels: []string{"C03/hash-is-double-sha256-of-80-byte-layout", "C03/serialisation-is-80-bytes"}},
+			{Pkg: "internal/zzverif/c03", Func: "HarnessDerived", Labels: []string{"C03/received-fields-kept", "C03/own-work", "C03/height-is-parent-plus-one", "C03/cumulative-work-is-parents-plus-own", "C03/state-follows-parent", "C03/unknown-parent-height-1", "C03/unknown-parent-own-work-only"}},
+			{Pkg: "internal/zzverif/c03", Func: "HarnessRoundTrip", Quick: [][]int64{{1}, {2}}, Thorough: [][]int64{{1}, {3}, {5}}, Labels: []string{"C03/round-trip-exact", "C03/exactly-one-row-added", "C03/other-rows-untouched"}},
+			{Pkg: "internal/zzverif/c03", Func: "HarnessWriteStatements", Quick: [][]int64{{2}}, Thorough: [][]int64{{4}}, Labels: []string{"C03/no-header-disappears", "C03/only-state-label-changes", "C03/write-statements-found"}},
+		},
+		Bounds:  []string{"hash and derived fields: full field domain (all int32 versions, uint32 bits/nonce, 32-byte hashes, timestamps over the uint32 epoch range); bits of the derived-field harness from a 6-entry menu (work exactness on all 2^32 encodings is C19)", "round trip next to k arbitrary rows (quick k<=2, thorough k<=5)", "every INSERT/UPDATE/DELETE statement constant of the database packages that names the headers table, with arbitrary arguments, on k arbitrary rows"},
+		Outside: []string{"SHA-256 itself (uninterpreted)", "sub-second timestamps", "driver value conversions of go-sqlite3 (exercised by the native witness replays, not by the solver)", "restarts: the service keeps no header state in memory; persistence is SQLite's", "statements assembled at run time with fmt.Sprintf are not enumerated"},
+		Stubs:   []string{"crypto/sha256.Sum256 = uninterpreted function per input length", "bytes.Buffer, io, encoding/binary are executed from their Go source"},
+	})
 	return m
 }
